@@ -277,6 +277,22 @@ def run_cli(script, args, stdin='pipe-open', input_bytes=None, timeout=120, env_
         p = subprocess.Popen(cmd, stdin=subprocess.DEVNULL, **kw)
         out, err = p.communicate(timeout=timeout)
         return out, err, p.returncode
+    if stdin in ('tty', 'tty-input'):
+        # a pseudo-terminal as standard input (a silent terminal, or one where the user types lines)
+        import pty
+        master, slave = pty.openpty()
+        try:
+            p = subprocess.Popen(cmd, stdin=slave, **kw)
+            os.close(slave)
+            if stdin == 'tty-input' and input_bytes:
+                os.write(master, input_bytes)
+            out, err = p.communicate(timeout=timeout)
+            return out, err, p.returncode
+        finally:
+            try:
+                os.close(master)
+            except OSError:
+                pass
     if stdin == 'closed':
         p = subprocess.Popen(cmd, stdin=None, close_fds=True, preexec_fn=lambda: os.close(0), **kw)
         out, err = p.communicate(timeout=timeout)
